@@ -23,7 +23,7 @@ def plan(ctx):
 
 def _vacuity(tot):
     if tot["nontrivial"] < 10 or tot.get("exact_states_judged", 0) < 100:
-        raise par.HarnessError("C05 vacuity guard: %d %d" % (tot["nontrivial"], tot.get("exact_states_judged", 0)))
+        raise par.GuardError("C05 vacuity guard: %d %d" % (tot["nontrivial"], tot.get("exact_states_judged", 0)))
 
 
 def _board_work(shard):
